@@ -798,10 +798,7 @@ pub fn gen_spec(rng: &mut Rng, pb: u8, p: u8, max_syms: usize, lib_share: u64) -
                     if probs.iter().sum::<f64>() <= 1e-30 {
                         probs[0] = 1.0;
                     }
-                    // f32 input only where f32's 24-bit mantissa resolves single quanta: at larger
-                    // precisions the fast constructor's float rounding can produce a zero
-                    // probability (recorded under C20, see DESIGN)
-                    let use_f32 = p <= 16 && rng.chance(1, 2);
+                    let use_f32 = rng.chance(1, 2);
                     if use_f32 {
                         // keep values representable and the sum finite/normal in f32
                         for x in probs.iter_mut() {
